@@ -9,8 +9,8 @@
 EXTENDS Integers, Sequences, FiniteSets, TLC, Json
 CONSTANT TraceFile
 Trace == ndJsonDeserialize(TraceFile)
-VARIABLES l, cat, mem, ref, viol
-vars == <<l, cat, mem, ref, viol>>
+VARIABLES l, cat, mem, ref, order, viol
+vars == <<l, cat, mem, ref, order, viol>>
 Empty == [x \in {} |-> 0]
 Put(f, x, v) == [y \in DOMAIN f \cup {x} |-> IF y = x THEN v ELSE f[y]]
 Drop(f, x) == [y \in DOMAIN f \ {x} |-> f[y]]
@@ -29,27 +29,32 @@ ViewViol(t) ==
               ELSE IF DOMAIN mem \ DOMAIN t.members # {} THEN {<<l, "MemberMissing">>}
               ELSE {<<l, "AddressWrong">>}
       errv == IF t.err = "" THEN {} ELSE {<<l, "ViewError">>}
-  IN catv \cup metav \cup memv \cup errv
+      \* the partition list of a dataset keeps the order it was created with (routing indexes into it: C10)
+      ordv == IF \E i \in 1..Len(t.datasets) : t.datasets[i].id \in DOMAIN order
+                     /\ [j \in 1..Len(t.datasets[i].parts) |-> t.datasets[i].parts[j][1]] # order[t.datasets[i].id]
+              THEN {<<l, "PartitionOrderChanged">>} ELSE {}
+  IN catv \cup metav \cup memv \cup errv \cup ordv
 
-Init == l = 1 /\ cat = {} /\ mem = Empty /\ ref = <<>> /\ viol = {}
+Init == l = 1 /\ cat = {} /\ mem = Empty /\ ref = <<>> /\ order = Empty /\ viol = {}
 Step ==
   /\ l <= Len(Trace) /\ l' = l + 1
   /\ LET t == Trace[l] IN
-     CASE t.ev = "scenario" -> cat' = {} /\ mem' = Empty /\ ref' = <<>> /\ viol' = viol
+     CASE t.ev = "scenario" -> cat' = {} /\ mem' = Empty /\ ref' = <<>> /\ order' = Empty /\ viol' = viol
        [] t.ev = "joined" -> /\ mem' = (IF t.ok = 1 THEN Put(mem, ToString(t.node), t.addr) ELSE mem)
-                             /\ viol' = viol \cup (IF t.ok = 1 THEN {} ELSE {<<l, "JoinFailed">>}) /\ UNCHANGED <<cat, ref>>
+                             /\ viol' = viol \cup (IF t.ok = 1 THEN {} ELSE {<<l, "JoinFailed">>}) /\ UNCHANGED <<cat, ref, order>>
        [] t.ev = "left" -> /\ mem' = (IF t.ok = 1 THEN Drop(mem, ToString(t.node)) ELSE mem)
-                           /\ viol' = viol /\ UNCHANGED <<cat, ref>>
+                           /\ viol' = viol /\ UNCHANGED <<cat, ref, order>>
        [] t.ev = "create" -> /\ cat' = (IF t.ok = 1 THEN cat \cup {t.id} ELSE cat) /\ ref' = <<>>
+                             /\ order' = (IF t.ok = 1 THEN Put(order, t.id, t.parts) ELSE order)
                              /\ viol' = viol \cup (IF t.ok = 1 THEN {} ELSE {<<l, "CreateFailed">>}) /\ UNCHANGED mem
        [] t.ev = "delete" -> /\ cat' = (IF t.ok = 1 THEN cat \ {t.id} ELSE cat) /\ ref' = <<>>
-                             /\ viol' = viol \cup (IF t.ok = 1 THEN {} ELSE {<<l, "DeleteFailed">>}) /\ UNCHANGED mem
-       [] t.ev = "started" -> /\ viol' = viol \cup (IF t.ok = 1 THEN {} ELSE {<<l, "RestartFailed">>}) /\ ref' = <<>> /\ UNCHANGED <<cat, mem>>
-       [] t.ev = "died" -> viol' = viol \cup {<<l, "NodeDied">>} /\ UNCHANGED <<cat, mem, ref>>
+                             /\ viol' = viol \cup (IF t.ok = 1 THEN {} ELSE {<<l, "DeleteFailed">>}) /\ UNCHANGED <<mem, order>>
+       [] t.ev = "started" -> /\ viol' = viol \cup (IF t.ok = 1 THEN {} ELSE {<<l, "RestartFailed">>}) /\ ref' = <<>> /\ UNCHANGED <<cat, mem, order>>
+       [] t.ev = "died" -> viol' = viol \cup {<<l, "NodeDied">>} /\ UNCHANGED <<cat, mem, ref, order>>
        [] t.ev = "view" -> /\ viol' = viol \cup ViewViol(t)
                            /\ ref' = (IF ref = <<>> /\ Ids(t.datasets) = cat THEN t.datasets ELSE ref)
-                           /\ UNCHANGED <<cat, mem>>
-       [] OTHER -> UNCHANGED <<cat, mem, viol>> /\ ref' = <<>>
+                           /\ UNCHANGED <<cat, mem, order>>
+       [] OTHER -> UNCHANGED <<cat, mem, order, viol>> /\ ref' = <<>>
 Spec == Init /\ [][Step]_vars
 Report == l = Len(Trace) + 1 => PrintT(<<"VIOL", ToJson([n |-> Len(Trace), v |-> viol])>>)
 =============================================================================
